@@ -42,7 +42,7 @@ ASSUMPTIONS = ["documented renaming: score, subtomo_id->subtomo_num, tomo_id->to
 
 CLASSES = ["n1", "unsorted_ids", "sparse_ids", "single_parity", "duplicate_ids", "arbitrary_floats", "star_ties",
            "int_dtypes", "permuted_columns", "filtered_index", "object_after_filter", "foreign_star", "foreign_frame", "via_em_file",
-           "half_integer_positions", "object_copy", "n300"]
+           "half_integer_positions", "object_copy", "n300", "boundary_sizes", "mutation_history"]
 CANON = gens.COLS
 ROUTES = ["StopgapMotl(df).write_out", "StopgapMotl(StopgapMotl).write_out", "Motl.load(df,stopgap).write_out",
           "emmotl2stopgap(df,path)", "emmotl2stopgap(EmMotl,path)", "Motl(df).write_out(path,stopgap)"]
@@ -51,17 +51,17 @@ ROUTES = ["StopgapMotl(df).write_out", "StopgapMotl(StopgapMotl).write_out", "Mo
 def plan(tier):
     # min_evals: core.py requires HALF of the stated figure.  For the three call monitors (sg_export, sg_import,
     # write_out_file) the stated figure is 1.6 x 80% of what the driver's own DIRECT calls produce with the monitors blind to
-    # cryoCAT-internal callers (VERIF_BYPASS_INTERNAL=1: quick 819-824 / 864 / 1015-1037, thorough 14738 / 15616 / 17320), so
+    # cryoCAT-internal callers (VERIF_BYPASS_INTERNAL=1: quick 914-917 / 958-960 / 1153-1174, thorough 16659 / 17514 / 19917), so
     # the floor holds whatever cryoCAT's internal call structure is.  Driver monitors: ~85% of the measured counts.
     if tier == "quick":
         return dict(n_cases=len(CLASSES) * 4 * 6, shards=4, classes=CLASSES, timeout_s=600,
-                    min_evals={"sg_export": 1040, "sg_import": 1100, "write_out_file": 1290, "star_fields": 1150,
-                               "star_halfset_idx": 1150, "update_coord": 1300, "star_reload": 1200, "inmem_roundtrip": 690,
-                               "converters": 1240})
+                    min_evals={"sg_export": 1170, "sg_import": 1225, "write_out_file": 1475, "star_fields": 1270,
+                               "star_halfset_idx": 1270, "update_coord": 1400, "star_reload": 1320, "inmem_roundtrip": 815,
+                               "converters": 1330})
     return dict(n_cases=len(CLASSES) * 4 * 120, shards=16, classes=CLASSES, timeout_s=3000,
-                min_evals={"sg_export": 18800, "sg_import": 19900, "write_out_file": 22000, "star_fields": 20000,
-                           "star_halfset_idx": 20000, "update_coord": 23000, "star_reload": 22500, "inmem_roundtrip": 12500,
-                           "converters": 22000})
+                min_evals={"sg_export": 21300, "sg_import": 22400, "write_out_file": 25400, "star_fields": 22700,
+                           "star_halfset_idx": 22700, "update_coord": 25400, "star_reload": 25000, "inmem_roundtrip": 14900,
+                           "converters": 23900})
 
 
 # ---- call monitors (Layer A) ---------------------------------------------------------------------
@@ -149,7 +149,7 @@ def _judge_file(path, E, updated, reset, slack=1.0):
         return err, (err if updated else None), err
     w_f = O.cmp_plain(F, E, "star", O.OTHER8 if updated else None)
     w_u = O.cmp_positions_updated(F, E, "star", slack) if updated else None
-    w_h = O.check_halfset_idx(half, mi, E["subtomo_id"], reset)
+    w_h = O.check_halfset_idx(half, mi, E["subtomo_id"], reset, star=True)
     return w_f, w_u, w_h
 
 
@@ -206,7 +206,57 @@ def _ids(rng, n, style):
         return 2 * sparse + 1
     if style == "dup":
         return rng.integers(1, max(2, n // 3 + 1), n)
+    if style == "boundary":
+        # adjacent integers around representability boundaries: just above 1e5 (np.isclose's default rtol merges neighbours),
+        # 2**24 (float32), 2**31 (int32), just below 2**53 (float64 integers)
+        start = int(rng.choice([100000, 2 ** 24 - n // 2, 2 ** 31 - n // 2, 2 ** 53 - n - 1]))
+        return rng.permutation(np.arange(start, start + n))
     raise ValueError(style)
+
+
+BELOW_HALF = float(np.nextafter(0.5, 0.0))          # 0.49999999999999994: |v| + 0.5 rounds to 1.0 in float arithmetic
+FIRST_ROW_TEXT = [3e-06, 2e-05, 1e+16, -3e-06, 7e-05, -1e+16, 1e-05]      # 6-decimal text forms 3e-06 / 2e-05 / 1e+16 ...
+
+
+def _plant(rng, df, n, fields_first_row=True):
+    """Plant values a random generator practically never produces (all inside 'arbitrary finite field values'):
+    position+shift an ulp below a rounding tie (+-nextafter(0.5,0), k+0.5-ulp), 1e-9..5e-7 below a tie, exact ties, odd
+    integers >= 2**52, and first-row values whose 6-decimal STAR text is in exponent form.  Returns what was planted."""
+    planted = []
+    rows = rng.permutation(n)[:min(n, 6)]
+    for r in rows:
+        p, sh = [(a, b) for a, b in zip(O.POS, O.SHIFT)][int(rng.integers(0, 3))]
+        kind = int(rng.integers(0, 9))
+        sgn = float(rng.choice([-1.0, 1.0]))
+        k = float(rng.choice([0, 1, 2, 7, 100, 4095, 65536]))
+        if kind == 0:
+            x, d = 0.0, sgn * BELOW_HALF                          # sum = +-nextafter(0.5, 0)
+        elif kind == 1:
+            x, d = sgn * 0.25, sgn * (0.25 - 2.0 ** -54)          # same sum, reached by an exact float addition
+        elif kind == 2:
+            x, d = sgn * float(np.nextafter(k + 0.5, 0.0)), 0.0   # k + 0.5 - ulp
+        elif kind == 3:
+            x, d = sgn * k, sgn * float(np.nextafter(0.5, 0.0)) if k == 0 else sgn * 0.5     # exact tie (k>0) / below-half (k=0)
+        elif kind == 4:
+            x, d = sgn * (k + 0.5 - float(rng.choice([1e-9, 3e-8, 3e-7, 5e-7]))), 0.0         # 1e-9..5e-7 below a tie
+        elif kind == 5:
+            x, d = sgn * float(2 ** 52 + int(rng.choice([1, 3, 1001]))), 0.0                   # odd integer >= 2**52
+        elif kind == 6:
+            x, d = sgn * float(2 ** 52), sgn * 1.0                                             # sum = odd integer 2**52 + 1
+        elif kind == 7:
+            x, d = sgn * float(2 ** 53 - 1), 0.0
+        else:
+            x, d = sgn * (k + 0.5), 0.0                                                        # exact tie, zero shift
+        df.loc[r, p], df.loc[r, sh] = x, d
+        planted.append([int(r), p, x, d])
+    if fields_first_row:
+        cand = ["score", "x", "y", "z", "shift_x", "shift_y", "shift_z", "phi", "psi", "theta", "tomo_id", "object_id", "class"]
+        for c in cand:
+            if rng.random() < 0.45:
+                v = float(rng.choice(FIRST_ROW_TEXT))
+                df.loc[0, c] = v
+                planted.append([0, c, v])
+    return planted
 
 
 def _arbitrary(rng, n):
@@ -244,6 +294,10 @@ def gen(ctx, i, cls):
         n = 1
     elif cls == "n300":
         n = 300
+    elif cls == "boundary_sizes":       # block-boundary particle counts 2**k - 1, 2**k, 2**k + 1 and the largest allowed
+        n = int(rng.choice([63, 64, 65, 127, 128, 129, 255, 256, 257, 299, 300]))
+    elif cls == "mutation_history":
+        n = int(rng.choice([2, 3, 8, 33, 65, 120]))
     df = gens.motl_table(rng, n, tomos=int(rng.integers(1, 5)), signed=bool(rng.integers(0, 2)))
     style = str(rng.choice(["perm_offset", "sparse", "large", "descending"]))
     if cls == "unsorted_ids":
@@ -258,7 +312,19 @@ def gen(ctx, i, cls):
         style = str(rng.choice(["even", "odd", "large", "sequential"]))
     elif cls in ("n300", "object_copy") and rng.random() < 0.15:
         style = "sequential"
+    if cls in ("sparse_ids", "boundary_sizes", "foreign_star", "foreign_frame", "mutation_history", "permuted_columns") and rng.random() < 0.5:
+        style = "boundary"
     df["subtomo_id"] = _ids(rng, n, style).astype(float)
+    if cls == "duplicate_ids" and n >= 2:
+        # exact duplicates: whole rows repeated, and particles at exactly the same position with different scores
+        src = rng.integers(0, n, max(1, n // 4))
+        dst = rng.integers(0, n, len(src))
+        for a, b in zip(src, dst):
+            if rng.random() < 0.5:
+                df.loc[b, :] = df.loc[a, :].to_numpy()
+            else:
+                for c in O.POS + O.SHIFT:
+                    df.loc[b, c] = df.loc[a, c]
     values = "normal"
     if cls == "arbitrary_floats":
         values = "arbitrary"
@@ -282,9 +348,21 @@ def gen(ctx, i, cls):
             df[p], df[s] = x, sh
     elif cls == "via_em_file":
         values = "float32"
-        if style == "large":
+        if style in ("large", "boundary"):
             df["subtomo_id"] = _ids(rng, n, "sparse").astype(float)
+        if rng.random() < 0.5:          # float32 representability boundaries: max and the two values below it, subnormals
+            f32 = np.array([3.4028234663852886e38, 3.4028232635611926e38, 3.4028230607370965e38, 1.401298464324817e-45,
+                            1.1754942106924411e-38, -3.4028234663852886e38, -1.401298464324817e-45, 16777216.0, 16777215.0])
+            for c in ("score", "x", "shift_y", "phi", "theta", "object_id"):
+                m = rng.random(n) < 0.25
+                df.loc[m, c] = rng.choice(f32, int(m.sum()))
+            values = "float32+boundaries"
         df = df.astype(np.float32).astype(np.float64)
+    planted = []
+    if cls == "half_integer_positions" or (cls not in ("via_em_file", "int_dtypes", "n1") and rng.random() < 0.6):
+        planted = _plant(rng, df, n, fields_first_row=(cls != "half_integer_positions" or rng.random() < 0.5))
+    elif cls == "n1" and rng.random() < 0.6:
+        planted = _plant(rng, df, 1)
     order = list(CANON)
     if cls == "permuted_columns" or (cls in ("filtered_index", "object_after_filter", "int_dtypes") and rng.random() < 0.4):
         order = [CANON[k] for k in rng.permutation(20)]
@@ -312,7 +390,7 @@ def gen(ctx, i, cls):
         foreign = dict(order=[O.SG_CANON[k] for k in rng.permutation(16)] if rng.random() < 0.4 else list(O.SG_CANON),
                        nl=["\n", "\r\n"][int(rng.integers(0, 2))], sep=["\t", "  ", " \t "][int(rng.integers(0, 3))],
                        numbered=bool(rng.integers(0, 2)), fmt=["repr", "%.6f", "%.10g"][int(rng.integers(0, 3))],
-                       int_tokens=bool(rng.integers(0, 2)),
+                       int_tokens=bool(rng.integers(0, 2)), odd_tokens=bool(rng.integers(0, 2)),
                        halfset=str(rng.choice(["parity", "random", "random", "inverted", "all_A", "all_B"])),
                        motl_idx=str(rng.choice(["ids", "1..N", "shuffled", "offset", "unrelated"])))
         if cls == "foreign_star":
@@ -331,7 +409,7 @@ def gen(ctx, i, cls):
             "sequential": bool(np.array_equal(ids, np.arange(1, n + 1)))}
     case["summary"] = {"n": n, "class": cls, "route": route, "reset_index": reset, "update_coord": upd, "id_style": style,
                        "values": values, "ids_head": [float(v) for v in ids[:6]], "index": index_kind,
-                       "column_order": order[:6], "int_cols": int_cols, "foreign": foreign,
+                       "column_order": order[:6], "int_cols": int_cols, "foreign": foreign, "planted": planted[:8],
                        "row0": {k: float(df[k].iloc[0]) for k in ("score", "x", "shift_x", "psi", "theta", "class")}}
     return case
 
@@ -361,7 +439,7 @@ def build_input(case, rng):
 def _judge(ctx, monitor, got, E, updated, mode, slack=1.0, **extra):
     """One evaluation of `monitor`: the 14 fields of `got` against E (update_coord form when `updated`)."""
     if got is None:
-        return ctx.check(monitor, False, dict(extra, what="a shared field is missing or not numeric"))
+        return ctx.check(monitor, False, dict(extra, what="a shared field is missing or not numeric", why=O.WHY[0]))
     w = O.cmp_plain(got, E, mode, O.OTHER8 if updated else None)
     if w is None and updated:
         w = O.cmp_positions_updated(got, E, mode, slack)
@@ -628,14 +706,20 @@ def _foreign(ctx, case, t, E, rng):
     if case["cls"] == "foreign_star":
         p1 = os.path.join(ctx.scratch, "foreign_%s.star" % case["i"])
         O.write_sg_star(p1, E, half, midx, order=fo["order"], nl=fo["nl"], sep=fo["sep"], numbered=fo["numbered"],
-                        fmt=fo["fmt"], int_tokens=fo["int_tokens"])
-        _reload(ctx, case, p1, E, False)
+                        fmt=fo["fmt"], int_tokens=fo["int_tokens"], odd_tokens=fo["odd_tokens"])
+        # the reference for reading this file is what the file's own tokens say (the foreign writer may use fewer digits
+        # than the table holds: '%.10g'), parsed by the oracle's tokenizer
+        F1, _, _, err = O.parse_sg_star(p1, len(ids))
+        if err is not None:
+            from vmon.core import HarnessError
+            raise HarnessError("the oracle cannot parse its own foreign file: %s" % err)
+        _reload(ctx, case, p1, F1, False)
         ok, m = ctx.call("StopgapMotl(path)", cm.StopgapMotl, p1)
         _rm(p1)
         if not ok:
             return
         E2 = O.em_fields(m.df)
-        if not _judge(ctx, "star_reload", E2, E, False, "star", loader="StopgapMotl(foreign path)"):
+        if not _judge(ctx, "star_reload", E2, F1, False, "star", loader="StopgapMotl(foreign path)"):
             return
     else:
         sgf = O.sg_frame(E, half, midx, fo["order"], fo["int_tokens"])
@@ -666,6 +750,79 @@ def _foreign(ctx, case, t, E, rng):
     elif ok:
         ctx.check("star_fields", False, {"what": "no file written", "route": case["route"]})
     _rm(p2)
+
+
+def _mutate_in_place(df, rng):
+    """Modify a caller-owned table IN PLACE: parities flip, rows 0 and N-1 exchange their content, positions move, psi and
+    theta exchange their values.  Works for cryoCAT-form and STOPGAP-form frames (names looked up in both)."""
+    n = len(df)
+    cols = set(map(str, df.columns))
+
+    def name(em):
+        return em if em in cols else O.EM2SG[em]
+    ids = name("subtomo_id")
+    df[ids] = df[ids].to_numpy() + rng.integers(0, 2, n).astype(df[ids].to_numpy().dtype)
+    df[name("x")] = df[name("x")].to_numpy() + 7.25
+    a, b = df[name("psi")].to_numpy().copy(), df[name("theta")].to_numpy().copy()
+    df[name("psi")], df[name("theta")] = b, a
+    if n >= 2:
+        first, last = df.iloc[0].copy(), df.iloc[n - 1].copy()
+        df.iloc[0], df.iloc[n - 1] = last, first
+
+
+def _history(ctx, case, t, E, rng):
+    """Three-step histories with in-place mutation of a caller-owned argument between the calls; every call is judged
+    against the values the argument holds at that moment (a cached / aliased earlier state would show)."""
+    cm = ctx.cm
+    reset, upd = case["reset"], case["upd"]
+    path = os.path.join(ctx.scratch, "hist_%s.star" % case["i"])
+    A = t                                                   # caller-owned table, handed over WITHOUT copying
+    # step 1
+    ok, sg1 = ctx.call("convert_to_sg_motl(A)", cm.StopgapMotl.convert_to_sg_motl, A, reset)
+    if ok:
+        w = _judge_sg_frame(sg1, E, reset)
+        ctx.check("inmem_roundtrip", w is None, dict(w, stage="history step 1: convert_to_sg_motl(A)") if w else None)
+    ok, m = ctx.call("StopgapMotl(A)", cm.StopgapMotl, A)
+    if not ok:
+        return
+    ok, _ = ctx.call("StopgapMotl.write_out", m.write_out, path, False, reset)
+    if ok and os.path.exists(path):
+        _check_file(ctx, path, E, False, reset, "history step 1: StopgapMotl(A).write_out")
+    # step 2: A modified in place; the static converter sees the new values, the object built before keeps its own list
+    _mutate_in_place(A, rng)
+    EA = O.em_fields(A)
+    ok, sg2 = ctx.call("convert_to_sg_motl(A)", cm.StopgapMotl.convert_to_sg_motl, A, not reset)
+    if ok:
+        w = _judge_sg_frame(sg2, EA, not reset)
+        ctx.check("inmem_roundtrip", w is None, dict(w, stage="history step 2: convert_to_sg_motl(A) after A was modified in place") if w else None)
+    _judge(ctx, "converters", O.em_fields(m.df), E, False, "exact", stage="history step 2: object built before A was modified")
+    # ... then the object's own list is modified in place and exported again, with the other flags
+    _mutate_in_place(m.df, rng)
+    Em = O.em_fields(m.df)
+    ok, _ = ctx.call("StopgapMotl.write_out", m.write_out, path, upd, not reset)
+    if ok and os.path.exists(path):
+        _check_file(ctx, path, Em, upd, not reset, "history step 2: write_out after obj.df was modified in place")
+        _reload(ctx, case, path, Em, upd)
+    # step 3: object built from a caller-owned STOPGAP-form frame S; S modified in place afterwards (fields, halfset, motl_idx)
+    if isinstance(sg2, pd.DataFrame) and EA is not None:
+        S = sg2
+        ok, m2 = ctx.call("StopgapMotl(sg_df)", cm.StopgapMotl, S)
+        if ok:
+            E2 = O.em_fields(m2.df)
+            _judge(ctx, "inmem_roundtrip", E2, EA, False, "exact", stage="history step 3: StopgapMotl(S).df")
+            kind = int(rng.integers(0, 3))
+            if kind in (0, 2):
+                S["halfset"] = ["A" if h == "B" else "B" for h in S["halfset"]]
+                S["motl_idx"] = np.arange(len(S), 0, -1)
+            if kind in (1, 2):
+                _mutate_in_place(S, rng)
+            Enow = O.em_fields(m2.df)              # the list the object holds NOW is what it has to export
+            ok, _ = ctx.call("StopgapMotl.write_out", m2.write_out, path, upd, reset)
+            if ok and os.path.exists(path) and Enow is not None:
+                _check_file(ctx, path, Enow, upd, reset, "history step 3: write_out after the source frame S was modified in place")
+            # and the modified S itself converts to what it holds now
+            _direct_import(ctx, S, O.sg_fields(S), "inmem_roundtrip", "exact", "history step 3: convert_to_motl(S modified)", kw=True)
+    _rm(path)
 
 
 def _filtered_object(ctx, case, t, E, rng):
@@ -732,6 +889,8 @@ def run_case(ctx, case):
         _foreign(ctx, case, t, E, rng)
     elif case["cls"] == "object_after_filter":
         _filtered_object(ctx, case, t, E, rng)
+    elif case["cls"] == "mutation_history":
+        _history(ctx, case, t, E, rng)
     else:
         _standard(ctx, case, t, E, rng)
     if case["i"] % 16 == 5:          # reach the .em branch of StopgapMotl.write_out; what it writes is C01's subject
